@@ -237,11 +237,64 @@ class Schedules3D(Space):
                   nontrivial=n0 * n1 > 1 and (kind == 'list' or order != sorted(order)), extra=extra or None)
 
 
+def eval_big(case):
+    """Shapes with MANY slices (33 columns) and slices whose flattened length exceeds 2**16 samples, one worker (identity schedule):
+    every entry against the per-signal analysis / the partition of the flattened slice."""
+    from bycycle.features import compute_features
+    from bycycle.group import compute_features_3d
+    kind, axis = case
+    axis = tuple(axis) if isinstance(axis, list) else axis
+    if kind == 'many':
+        n0, n1 = 2, 33
+        fs, fr = FS, FR
+        sigs = np.array([[S.word_signal(WORDS[(i * n1 + j) % 9][j % 4:] + WORDS[(i * n1 + j) % 9][:j % 4]) * (1. + .125 * j) for j in range(n1)] for i in range(n0)])
+    else:
+        n0, n1 = 2, 5
+        fs, fr = 1000, (13, 30)
+        x = S.long_signal('@B')
+        sigs = np.array([[x[(i * n1 + j) * 1000:(i * n1 + j) * 1000 + 14000] for j in range(n1)] for i in range(n0)])
+    opts = {'center_extrema': 'trough', 'threshold_kwargs': dict(S.T0)}
+    exp = [[None] * n1 for _ in range(n0)]
+    if axis == (0, 1):
+        for i in range(n0):
+            for j in range(n1):
+                exp[i][j] = compute_features(np.array(sigs[i, j]), fs, fr, return_samples=True, **copy.deepcopy(opts))
+    elif axis == 0:
+        for i in range(n0):
+            tabs, _, _ = ref_epoched(sigs[i], fs, fr, copy.deepcopy(opts))
+            for j in range(n1):
+                exp[i][j] = tabs[j]
+    else:
+        for j in range(n1):
+            tabs, _, _ = ref_epoched(np.ascontiguousarray(sigs[:, j]), fs, fr, copy.deepcopy(opts))
+            for i in range(n0):
+                exp[i][j] = tabs[i]
+    sgn = {'entry': '3d', 'big': kind, 'axis': repr(axis), 'options': 'dict'}
+    try:
+        with sched.patched_pool(None), contextlib.redirect_stdout(io.StringIO()):
+            got = compute_features_3d(sigs.copy(), fs, fr, compute_features_kwargs=copy.deepcopy(opts), axis=axis, return_samples=True, n_jobs=1)
+    except Exception as e:      # noqa
+        return VIOL(dict(sgn, kind='raise', exc=type(e).__name__), 'compute_features_3d raised %s: %s' % (type(e).__name__, str(e)[:150]))
+    if not isinstance(got, list) or len(got) != n0 or any(len(r) != n1 for r in got):
+        return VIOL(dict(sgn, kind='shape'), 'result is not a nested list of shape (%d, %d)' % (n0, n1))
+    for i in range(n0):
+        for j in range(n1):
+            dd = diff_tables(got[i][j], exp[i][j])
+            if dd:
+                where = [(a, b) for a in range(n0) for b in range(n1) if diff_tables(got[i][j], exp[a][b]) is None][:3]
+                return VIOL(dict(sgn, kind='position'), 'entry [%d][%d] is not the analysis of the signal / epoch at that position (%s); it equals the '
+                            'expected table of %s' % (i, j, dd, where))
+    return OK(outcome=(kind, repr(axis)), nontrivial=True, evals=n0 * n1)
+
+
 def spaces(tier, seed):
     cfgs = configs(tier)
     pairs = sorted({(ntasks(c[0], c[1]), eff_workers(c[3], ntasks(c[0], c[1]))) for c in cfgs})
     prepare_model(pairs)
-    return [Schedules3D(tier)]
+    from bcmc.explore import ListSpace
+    big = [[k, a] for k in ('many', 'large') for a in (0, 1, [0, 1])]
+    return [Schedules3D(tier), ListSpace('big-arrays', big, eval_big,
+                                         describe='(2, 33, 48) array (33 slices along axis 1) and (2, 5, 14000) array (flattened slices of 70000 / 28000 samples) x axis 0, 1, (0,1)')]
 
 
 def run_extra(tier, seed, jobs, log):
